@@ -27,8 +27,19 @@ pub enum WEv {
     IoErr,
 }
 
+thread_local! {
+    /// when > 0, every scripted "not ready" of the tokio transport (read half and write half) lasts this many seconds of the
+    /// runtime's *virtual* clock (the runtimes used here are paused: time advances only when everything is waiting) instead of
+    /// waking at once. Each wait stays far below the connection's 90 s idle limit; what is being asked is that only a single
+    /// silence — never the sum of several — can run into a time limit. The blocking transport ignores it (it has no clock).
+    pub static SLOW: std::cell::Cell<u64> = const { std::cell::Cell::new(0) };
+}
+
 #[derive(Debug, Default)]
 pub struct Script {
+    /// the virtual-time wait in progress on the read half / the write half (see `SLOW`)
+    pub rsleep: Option<Pin<Box<tokio::time::Sleep>>>,
+    pub wsleep: Option<Pin<Box<tokio::time::Sleep>>>,
     pub events: VecDeque<Ev>,
     pub wscript: VecDeque<WEv>,
     /// what the read half actually returned, in order (the model's script)
@@ -233,6 +244,13 @@ impl Write for Transport {
 
 impl AsyncRead for Transport {
     fn poll_read(self: Pin<&mut Self>, cx: &mut Context<'_>, buf: &mut ReadBuf<'_>) -> Poll<io::Result<()>> {
+        {
+            let mut s = self.0.lock().unwrap();
+            if let Some(sl) = s.rsleep.as_mut() {
+                if std::future::Future::poll(sl.as_mut(), cx).is_pending() { return Poll::Pending; }
+                s.rsleep = None;
+            }
+        }
         let mut tmp = vec![0u8; buf.remaining()];
         match self.read_step(&mut tmp) {
             RStep::Got(n) => {
@@ -241,7 +259,12 @@ impl AsyncRead for Transport {
             },
             RStep::Err => { let nth = self.0.lock().unwrap().injected; Poll::Ready(Err(injected_read_error(nth))) },
             RStep::Pending { wake } => {
-                if wake {
+                let slow = SLOW.with(|x| x.get());
+                if wake && slow > 0 {
+                    let mut sl = Box::pin(tokio::time::sleep(std::time::Duration::from_secs(slow)));
+                    let _ = std::future::Future::poll(sl.as_mut(), cx);
+                    self.0.lock().unwrap().rsleep = Some(sl);
+                } else if wake {
                     cx.waker().wake_by_ref();
                 }
                 Poll::Pending
@@ -252,11 +275,25 @@ impl AsyncRead for Transport {
 
 impl AsyncWrite for Transport {
     fn poll_write(self: Pin<&mut Self>, cx: &mut Context<'_>, buf: &[u8]) -> Poll<io::Result<usize>> {
+        {
+            let mut s = self.0.lock().unwrap();
+            if let Some(sl) = s.wsleep.as_mut() {
+                if std::future::Future::poll(sl.as_mut(), cx).is_pending() { return Poll::Pending; }
+                s.wsleep = None;
+            }
+        }
         match self.write_step(buf) {
             RStep::Got(n) => Poll::Ready(Ok(n)),
             RStep::Err => Poll::Ready(Err(injected_error())),
             RStep::Pending { .. } => {
-                cx.waker().wake_by_ref();
+                let slow = SLOW.with(|x| x.get());
+                if slow > 0 {
+                    let mut sl = Box::pin(tokio::time::sleep(std::time::Duration::from_secs(slow)));
+                    let _ = std::future::Future::poll(sl.as_mut(), cx);
+                    self.0.lock().unwrap().wsleep = Some(sl);
+                } else {
+                    cx.waker().wake_by_ref();
+                }
                 Poll::Pending
             },
         }
